@@ -456,7 +456,19 @@ class ClassRef(PE.Obj):
             return self.name
         return self.world.class_attr(self.key, name)
 
+    def __eq__(self, other):
+        return isinstance(other, ClassRef) and other.key == self.key
+
+    def __ne__(self, other):
+        return not self.__eq__(other)
+
+    def __hash__(self):
+        return hash(self.key)
+
     def __call__(self, text, *a, **k):
+        hook = getattr(self.world, "construct_from", None)
+        if hook is not None and not isinstance(text, str):
+            return hook(self, text, *a, **k)          # rules/prog_interp.py: a reader, a reader item, an existing node
         if isinstance(text, (Tok, Inst)):
             return text
         if not isinstance(text, str):
